@@ -9,6 +9,7 @@ import (
 	"go/ast"
 	"go/token"
 	"go/types"
+	"os"
 	"sort"
 	"strings"
 
@@ -1408,7 +1409,48 @@ func FooterRejectsEveryMismatch(c *core.Ctx, rule string) {
 		}
 		nNil++
 		if !e.AnyUnder(cs.Sites, equal) {
+			// not a dominating fact: the verdict may be computed first and tested once
+			// (`if a != b { err = … }; if err != nil { return err }; return nil`). Then no
+			// feasible path may reach this return without crossing an edge that
+			// establishes the equality (path conditions prune the correlated branches)
+			var rsite *flow.Site
+			for i := range cs.Sites {
+				st := &cs.Sites[i]
+				if len(st.Up) == 0 && st.G != nil && st.At.Node() != nil {
+					if _, isRet := st.At.Node().(*ast.ReturnStmt); isRet {
+						rsite = st
+					}
+				}
+			}
+			if rsite != nil {
+				g0 := rsite.G
+				target := rsite.At.Node()
+				w := g0.Path(cfgq.Query{From: g0.Entry(),
+					Target: func(n ast.Node) bool { return n == target },
+					AvoidEdge: func(b *cfg.Block, s int) bool {
+						// the operands of the comparison, followed back to what they hold here
+						at := flow.Site{G: g0, At: cfgq.Point{B: b, I: len(b.Nodes) - 1}}
+						return g0.Establishes(b, s, func(f cfgq.Fact) bool {
+							if equal(f) {
+								return true
+							}
+							be, isBin := ast.Unparen(flow.Positive(f)).(*ast.BinaryExpr)
+							if !isBin || len(b.Nodes) == 0 {
+								return false
+							}
+							rx, ry := e.Resolve(at, be.X), e.Resolve(at, be.Y)
+							return equal(cfgq.Fact{Expr: &ast.BinaryExpr{X: rx, Op: be.Op, OpPos: be.OpPos, Y: ry}, Val: true})
+						})
+					}})
+				if os.Getenv("RS_DEBUG_FOOTER") != "" {
+					fmt.Println("footer path:", w, "sawCompare", sawCompare)
+				}
+				if w == nil && sawCompare {
+					continue
+				}
+			}
 			where := "-"
+
 			if len(cs.Sites) > 0 && cs.Sites[0].At.Node() != nil {
 				where = c.Pos(cs.Sites[0].At.Node().Pos())
 			}
